@@ -1,18 +1,25 @@
-import FindVerif.Driver.Lines
+import FindVerif.Driver.Props
 
 open FV
 
 /-- One line `request TAB profile observation` ↦ verdict line. -/
-def handleLine (_prop : String) (line : String) : String :=
+def handleLine (prop : String) (line : String) : String :=
   match line.splitOn "\t" with
   | [req, obsFull] =>
     let (pfS, obs) := match obsFull.splitOn " " with
       | p :: rest => (p, " ".intercalate rest)
       | [] => ("debug", "")
     let pf := profileOf pfS
-    match modelObs pf (req.splitOn " ") obs with
-    | .skip why => "SKIP " ++ why
-    | .obs m => if m = obs then "OK" else s!"DIFF impl=[{obs}] model=[{m}]"
+    let reqParts := req.splitOn " "
+    let reqCore := reqParts.filter (fun p => !p.startsWith "#")
+    let diff : Option String := match modelObs pf reqCore obs with
+      | .skip why => some ("SKIP " ++ why)
+      | .obs m => if m = obs then none else some s!"DIFF impl=[{obs}] model=[{m}]"
+    match propCheck prop reqParts obs, diff with
+    | some why, some d => s!"PFAIL {prop} {why} ;; {d}"
+    | some why, none => s!"PFAIL {prop} {why}"
+    | none, some d => d
+    | none, none => "OK"
   | _ => "SKIP malformed"
 
 partial def loop (prop : String) (h : IO.FS.Stream) (out : IO.FS.Stream) : IO Unit := do
